@@ -172,6 +172,11 @@ def _decide(res, src, dst, dst_asts, A, B, inputs, V, vis_exact, vname, costs, o
         m = e["match"]
         if m.get("kind", "nonempty") == "dom_superset":
             return [{"kind": "dom_superset", "prefix": m["prefix"]}]
+        if m.get("kind") == "infsup_guard_nonempty":
+            try:
+                return [{"kind": "nonempty", "sigs": sorted(_au.infsup_guard_sigs(_au.parse(dst)))}]
+            except RuntimeError:
+                return []
         if m.get("kind") == "dom_negated_false":
             try:
                 return [{"kind": "all_false", "sigs": sorted(_au.antimonotone_domain_sigs(_au.parse(dst), m["prefix"]))}]
@@ -305,6 +310,17 @@ def class_signature_holds(entry, dst, instance, consts):
     for c in consts:
         args += ["-c", c]
     extra = ""
+    if m.get("kind") == "infsup_guard_nonempty":
+        sigs = astutil.infsup_guard_sigs(astutil.parse(dst))
+        if not sigs:
+            return False
+        ctl = clingo.Control(args, logger=lambda c, m_: None)
+        try:
+            ctl.add("base", [], dst + "\n" + instance)
+            ctl.ground([("base", [])])
+        except RuntimeError:
+            return False
+        return any(not any(True for _ in ctl.symbolic_atoms.by_signature(name, ar)) for name, ar in sigs)
     if m.get("kind") == "dom_negated_false":
         sigs = astutil.antimonotone_domain_sigs(astutil.parse(dst), m["prefix"])
         if not sigs:
